@@ -15,12 +15,14 @@ from ..gen import steps as ST
 from ..gen import tables as T
 from ..seams import faults as F
 
-KINDS = ['concatenate', 'duplicate', 'delete_resource', 'iterable', 'update_resource', 'sources', 'load_tuple']
+KINDS = ['concatenate', 'duplicate', 'delete_resource', 'iterable', 'update_resource', 'sources', 'load_tuple', 'add_field', 'delete_fields']
 
 
 def model(tables, steps):
-    """placement model: -> list of [name, rows]"""
-    st = [[t['name'], T.rows_of(t)] for t in tables]
+    """placement model: -> list of [name, rows, field names or None (= not predicted)]"""
+    import re
+    # an iterable without rows has no inferable schema: its resource declares no fields
+    st = [[t['name'], T.rows_of(t), [f['name'] for f in t['fields']] if t['rows'] else []] for t in tables]
     for sp in steps:
         s = sp['step']
         names = [x[0] for x in st]
@@ -40,10 +42,10 @@ def model(tables, steps):
                         if k in mapping and v is not None:
                             new[mapping[k]] = v
                     rows.append(new)
-            st = [x for x in st[:first]] + [[sp['target'], rows]] + [x for x in st[first:] if x[0] not in sel]
+            st = [x for x in st[:first]] + [[sp['target'], rows, None]] + [x for x in st[first:] if x[0] not in sel]
         elif s == 'duplicate':
             i = names.index(sp['source'])
-            cp = [sp['target'], copy.deepcopy(st[i][1])]
+            cp = [sp['target'], copy.deepcopy(st[i][1]), list(st[i][2]) if st[i][2] is not None else None]
             if sp.get('to_end'):
                 st = st + [cp]
             else:
@@ -52,17 +54,33 @@ def model(tables, steps):
             sel = select(sp['resources'], names)
             st = [x for x in st if x[0] not in sel]
         elif s == 'iterable':
-            st = st + [['res_%d' % (len(st) + 1), [{'_id': r[0], 'a': r[1]} for r in sp['rows']]]]
+            st = st + [['res_%d' % (len(st) + 1), [{'_id': r[0], 'a': r[1]} for r in sp['rows']], ['_id', 'a'] if sp['rows'] else []]]
         elif s == 'sources':
             # sources() runs each of its data sources as an own little flow: their resources are named res_1.. inside it
             for j, rows in enumerate(sp['tables']):
-                st = st + [['res_1', [{'_id': r[0], 'a': r[1]} for r in rows]]]
+                st = st + [['res_1', [{'_id': r[0], 'a': r[1]} for r in rows], ['_id', 'a'] if rows else []]]
         elif s == 'load_tuple':
-            st = st + [[sp['name'], [{'_id': r[0], 'a': r[1]} for r in sp['rows']]]]
+            st = st + [[sp['name'], [{'_id': r[0], 'a': r[1]} for r in sp['rows']], ['_id', 'a']]]
         elif s == 'update_resource':
             sel = select(sp['resources'], names)
             if 'name' in sp['props']:
-                st = [[sp['props']['name'] if x[0] in sel else x[0], x[1]] for x in st]
+                st = [[sp['props']['name'] if x[0] in sel else x[0], x[1], x[2]] for x in st]
+        elif s == 'add_field':
+            sel = select(sp['resources'], names)
+            for x in st:
+                if x[0] in sel:
+                    for row in x[1]:
+                        row[sp['name']] = sp.get('default')
+                    if x[2] is not None:
+                        x[2] = x[2] + [sp['name']]
+        elif s == 'delete_fields':
+            sel = select(sp['resources'], names)
+            pats = [re.compile('^%s$' % (f if sp.get('regex', True) else re.escape(f))) for f in sp['fields']]
+            for x in st:
+                if x[0] in sel:
+                    x[1] = [{k: v for k, v in row.items() if not any(p.match(k) for p in pats)} for row in x[1]]
+                    if x[2] is not None:
+                        x[2] = [k for k in x[2] if not any(p.match(k) for p in pats)]
     return st
 
 
@@ -133,7 +151,7 @@ class C16(Prop):
     ASSUMPTIONS = ['the placement model (dfsim/props/c16.py:model) is the documented semantics: first-selected position for concatenate, right-after / end for duplicate, append for new sources',
                    'sqlite below KVFile is real and fault-free here']
     REAL_VS_STUB = {'real': ['dataflows concatenate / duplicate / delete_resource / iterable_loader / update_resource', 'kvfile + sqlite'], 'stub': ['KVFile twin only sets the cache-size knob and counts operations']}
-    PROBES = ['duplicate-spilled-to-disk', 'concatenate-with-rename', 'delete-after-duplicate', 'empty-resource', 'big-resource', 'duplicate-to-end', 'iterable-appended', 'concat-then-delete', 'concatenate-without-id-field', 'sources-appended', 'load-tuple-appended']
+    PROBES = ['duplicate-spilled-to-disk', 'concatenate-with-rename', 'delete-after-duplicate', 'empty-resource', 'big-resource', 'duplicate-to-end', 'iterable-appended', 'concat-then-delete', 'concatenate-without-id-field', 'sources-appended', 'load-tuple-appended', 'schema-edit-on-one-twin-after-duplicate']
     TIERS = {'quick': dict(runs=800, wall=100, run_wall=120),
              'thorough': dict(runs=25000, wall=1700, run_wall=300)}
     SHRINK_FROZEN = ('fields_', 'gen_stats')
@@ -181,6 +199,8 @@ class C16(Prop):
                 ctx.probe('load-tuple-appended')
             if sp['step'] == 'concatenate' and '_id' not in sp['fields']:
                 ctx.probe('concatenate-without-id-field')
+        if 'duplicate' in kinds and any(k in ('add_field', 'delete_fields') for k in kinds[kinds.index('duplicate'):]):
+            ctx.probe('schema-edit-on-one-twin-after-duplicate')
         if 'duplicate' in kinds and 'delete_resource' in kinds[kinds.index('duplicate'):]:
             ctx.probe('delete-after-duplicate')
         if 'concatenate' in kinds and 'delete_resource' in kinds[kinds.index('concatenate'):]:
@@ -196,6 +216,9 @@ class C16(Prop):
                 ctx.probe('duplicate-spilled-to-disk')
             if v['names'] != want_names:
                 ctx.violation('placement', 'names', 'output resources %r, placement model predicts %r; %s' % (v['names'], want_names, desc), kvsize=kvsize)
+            for nm, gf, wf in zip(v['names'], v['fields'], [x[2] for x in want]):
+                if wf is not None and gf != wf:
+                    ctx.violation('passthrough-changed', 'descriptor', 'resource %r declares fields %r, expected %r (KVFile cache size %r); %s' % (nm, gf, wf, kvsize, desc), kvsize=kvsize)
             for nm, got, exp in zip(v['names'], v['rows'], want_rows):
                 gi = [x.get('_id') for x in got]
                 ei = [x.get('_id') for x in exp]
